@@ -62,6 +62,17 @@ CLAIMED["C05"] = dict(
          "model; remove_substituent/add_implicit_hydrogens are covered through C16/C15 contracts, Substructure/Conformer views in C14.",
 )
 
+CLAIMED["C14"] = dict(
+    text="Proof per constructor branch and per operation (induction on the rectangularity invariant): all ConformerEnsemble "
+         "constructor branches, append, extend, scale/invert/translate/rotate keep coords (nc,na,3), charges (nc,na), weights (nc,) "
+         "with existing rows unchanged; Conformer(e,i) reads row i and writes go through to row i only (symbolic i); plain, nested "
+         "and interleaved iteration visit each conformer exactly once in order.",
+    ref="DESIGN.md section 3 C14",
+    note="Array shapes are concrete per unit (0..2 conformers x 0..2 atoms), values and the conformer index symbolic; numpy "
+         "allocation/append/broadcast/view semantics are a trusted model; dump/serialise of a view is covered by C01/C07; an ensemble "
+         "without any atoms adopting its first geometry is outside the claim.",
+)
+
 NOT_APPLICABLE = {
 }
 
